@@ -832,5 +832,163 @@ def r1b(cx):
     cx.floor(n, 19, 'resource options of ulimit')
 
 
+# ---------------------------------------------------------------------------------------
+# added after the audit of the unmodified tree (fix e9d7145: umask --symbolic, unalias --all)
+DOC_PAIR = re.compile(r'\*\*`-([A-Za-z0-9])`\*\*\s*\(\*\*`--([A-Za-z0-9][A-Za-z0-9-]*)`\*\*\)')
+
+
+@RS.rule('C20.R6', 'K-TABLE', 'the user manual documents `-x` (`--long`) as two spellings of one option: the option table of that built-in '
+         'must have one spec carrying both names (a documented long spelling that the table lacks is rejected as an unknown option)')
+def r6(cx):
+    import os
+    F = cx.F
+    docs = os.path.join(getattr(F, 'repo', '/repo'), 'docs', 'src', 'builtins')
+    cx.require(os.path.isdir(docs), 'the manual pages of the built-ins (docs/src/builtins) were not found')
+    tb = tables(cx)
+    by_mod = {}
+    for k, (h, specs) in tb.items():
+        by_mod.setdefault(module_of(k if isinstance(k, str) else k[1]), []).append((k, h, specs))
+    pairs = 0
+    pages = 0
+    for page in sorted(os.listdir(docs)):
+        if not page.endswith('.md'):
+            continue
+        stem = page[:-3]
+        text = open(os.path.join(docs, page), encoding='utf-8').read()
+        text = re.sub(r'<!--.*?-->', '', text, flags=re.S)          # options announced as not implemented sit in comments
+        documented = sorted(set(DOC_PAIR.findall(text)))
+        if not documented:
+            continue
+        pages += 1
+        mod_tables = by_mod.get(stem, [])
+        if stem in ('export', 'readonly'):
+            mod_tables = mod_tables + by_mod.get('typeset', [])       # both delegate to the typeset parser for the rest
+        if not mod_tables:
+            cx.violation('docs/src/builtins/%s' % page, 'no-option-table', 'the manual documents options for `%s` but no option table of '
+                         'yash_builtin::%s reaches the generic parser' % (stem, stem))
+            continue
+        specs = [s for k, h, ss in mod_tables for s in ss]
+        h0 = mod_tables[0][1]
+        key0 = mod_tables[0][0] if isinstance(mod_tables[0][0], str) else mod_tables[0][0][1]
+        for short, long_ in documented:
+            pairs += 1
+            cx.cellcount(1)
+            both = [s for s in specs if s['short'] == short and s['long'] == long_]
+            cx.site('%s: -%s / --%s documented; table has the pair: %s' % (stem, short, long_, bool(both)))
+            if both:
+                continue
+            s_short = [s for s in specs if s['short'] == short]
+            s_long = [s for s in specs if s['long'] == long_]
+            if s_short and not s_long:
+                what = 'the table knows -%s but not --%s (long name %r): the documented long spelling is rejected as an unknown option' \
+                       % (short, long_, s_short[0]['long'])
+            elif s_long and not s_short:
+                what = 'the table knows --%s but under the short name %r, not -%s' % (long_, s_long[0]['short'], short)
+            elif s_short and s_long:
+                what = '-%s and --%s are two different specs of the table: the two documented spellings select different options' % (short, long_)
+            else:
+                what = 'neither -%s nor --%s is in the option table' % (short, long_)
+            cx.violation(key0, 'documented-pair:%s:-%s/--%s' % (stem, short, long_), 'docs/src/builtins/%s documents -%s (--%s) as one option, '
+                         'but %s' % (page, short, long_, what), loc=hloc(h0, h0['body']))
+    cx.floor(pages, 14, 'manual pages documenting -x (--long) pairs')
+    cx.floor(pairs, 47, 'documented -x (--long) pairs')
+
+
+# ---------------------------------------------------------------------------------------
+# kill's bespoke parser, added after the audit of the unmodified tree (fixes a835bd0, b738927)
+KILL_PARSE = 'yash_builtin::kill::syntax::parse'
+KILL_PARSE_SIGNAL = 'yash_builtin::kill::syntax::parse_signal'
+PREFIX_ONLY = [re.compile(r'core::str::<impl str>::(starts_with|strip_prefix|is_empty|len|is_char_boundary)(::<.*>)?$'),
+               re.compile(r'PartialEq(<.*>)?>::(eq|ne)$'), re.compile(r'::eq$'), re.compile(r'::ne$')]
+
+
+def _kill_parse(cx):
+    F = cx.F
+    body = F.main_body(KILL_PARSE)
+    cx.fn(body.fn)
+    du = Q.DefUse(body)
+    named = {body.local_name(l): l for l in range(len(body.locals)) if body.local_name(l)}
+    return F, body, du, named
+
+
+@RS.rule('C20.R7', 'K-GUARD', 'kill has no long options: an argument that starts with `--` (other than the separator itself) is never read '
+         'as the obsolete `-SIGNAL` spelling (`--9` is not `-n -9`)')
+def r7(cx):
+    F, body, du, named = _kill_parse(cx)
+    sites = [(blk, t) for blk, t in body.calls() if Q.callee_is(t, [KILL_PARSE_SIGNAL])]
+    cx.floor(len(sites), 3, 'parse_signal calls in the kill option parser')
+    n = 0
+    for blk, t in sites:
+        text = Q.operand_name(body, du, t['a'][1]) if len(t['a']) > 1 else None
+        if text not in ('options', 'remainder'):
+            continue                      # a separate argument (`-s NAME`), not text cut out of the option argument
+        n += 1
+        ok = False
+        for org, lab, edge in Q.implied_conditions(F, body, du, blk):
+            if org['k'] != 'call' or not Q.callee_is(org['t'], [re.compile(r'core::str::<impl str>::(starts_with|strip_prefix)(::<.*>)?$')]):
+                continue
+            a = org['t']['a']
+            recv = Q.operand_name(body, du, a[0]) or ''
+            pat = str(a[1].get('c')) if len(a) > 1 and 'c' in a[1] else ''
+            if '-' not in pat or not (recv.startswith('options') or recv.startswith('arg.value')):
+                continue
+            if lab in (('bool', False), ('variant', 'None')):
+                ok = True
+        cx.site('kill::syntax::parse: parse_signal(%s) at %s: behind the no-second-hyphen test: %s' % (text, body.loc(t), ok))
+        if not ok:
+            cx.violation(KILL_PARSE, 'double-hyphen-as-signal:%s' % text, 'text cut out of an option argument (%s) is parsed as a signal without a '
+                         'test that it does not start with a second hyphen: `kill --9 pid` is then the obsolete `-SIGNAL` spelling of '
+                         'signal "-9" instead of an unknown option (kill has no long options)' % text, loc=body.loc(t))
+    cx.require(n >= 2, 'no parse_signal call on text cut out of the option argument (`options` / `remainder`) found: anchor moved')
+
+
+@RS.rule('C20.R8', 'K-GUARD', 'kill: an argument is read either as a cluster of options or as one signal in the obsolete `-SIGNAL` spelling, '
+         'never as both: `-l` / `-v` is recorded only after a look-ahead over the rest of the argument (`-vtalrm`, `-lost` are signals)')
+def r8(cx):
+    F, body, du, named = _kill_parse(cx)
+    cx.require('options' in named and 'list' in named and 'verbose' in named,
+               'locals options/list/verbose of kill::syntax::parse not found (renamed?)')
+    # values derived from the option argument as a whole, not counting prefix/length-only inspections
+    whole = Q.forward_taint(body, {named['options']}, stop_calls=PREFIX_ONLY)
+    # values derived from the character the scan is currently at
+    nexts = [(blk, t) for blk, t in body.calls() if Q.callee_is(t, [re.compile(r'Chars<.*> as core::iter::traits::iterator::Iterator>::next$')])]
+    cx.require(nexts, 'the character scan of the option argument (Chars::next) was not found')
+    cur_iters = set()
+    for blk, t in nexts:
+        o = du.origin(t['a'][0])
+        if o['k'] == 'ref':
+            cur_iters.add(o['pl']['l'])
+    current = Q.forward_taint(body, cur_iters | {t['dest']['l'] for _, t in nexts})
+    n = 0
+    for blk, j, st in body.stmts():
+        if st['k'] != 'assign' or st['lhs'].get('p') or st['lhs']['l'] not in (named['list'], named['verbose']):
+            continue
+        o = du.origin(st['rv']['o']) if st['rv']['k'] == 'use' else {'k': 'agg', 'rv': st['rv']}
+        if o['k'] == 'agg' and o['rv'].get('variant') in (0, 'None'):
+            continue                      # initialisation to None
+        which = body.local_name(st['lhs']['l'])
+        n += 1
+        look = []
+        for org, lab, edge in Q.implied_conditions(F, body, du, blk):
+            locs = set()
+            if org['k'] == 'place':
+                locs = {org['pl']['l']}
+            elif org['k'] in ('unop', 'binop', 'cast'):
+                locs = {p['l'] for p in Q.rvalue_places(org['rv'])}
+            elif org['k'] == 'call':
+                locs = {org['t']['dest']['l']}
+            elif org['k'] == 'discr':
+                locs = {org['pl']['l']}
+            if any(l in whole and l not in current for l in locs):
+                look.append(lab)
+        cx.site('kill::syntax::parse: `%s` recorded at %s behind %d condition(s) computed from the whole argument' % (which, body.loc(st), len(look)))
+        if not look:
+            cx.violation(KILL_PARSE, 'flag-recorded-without-look-ahead:%s' % which, 'the -%s option is recorded as soon as its letter is met, '
+                         'whatever follows in the argument: `kill -vtalrm pid` / `kill -lost pid` (signal names beginning with an option '
+                         'letter, obsolete -SIGNAL spelling) are then both an option and a signal and are rejected, while `-s VTALRM` works'
+                         % which[0], loc=body.loc(st))
+    cx.require(n >= 2, 'the assignments recording -l and -v were not found')
+
+
 # --- explanation addendum (generated catalogue in DESIGN.md reads RS.explanation)
-RS.explanation += " Added later: ulimit's long names agree with the resource selected by the short letter (R1b); the cut of `--name=value` is measured in the text the user typed (R3b)."
+RS.explanation += " Added later: ulimit's long names agree with the resource selected by the short letter (R1b); the cut of `--name=value` is measured in the text the user typed (R3b). the user manual's -x (--long) pairs are pairs of the option tables (R6)."
